@@ -103,6 +103,7 @@ func computeFuncRenames(pkgs []*packages.Package) []string {
 				case c.recv == f[1]: // same receiver type (or both plain functions)
 				case c.recv == "" && f[1] != "" && c.first == f[1]: // method turned into a function
 				case c.recv != "" && f[1] == "": // function turned into a method
+				case c.recv == "" && f[1] != "" && c.fd.Name.Name == f[2]: // a method that lost its receiver and kept its name
 				default:
 					continue
 				}
